@@ -136,6 +136,26 @@ struct Inner {
     shared: Arc<Shared>,
 }
 
+thread_local! {
+    /// the name the next `Inner::clone` gives its result (Clone for Instrumented / WithDispatch clones the inner future)
+    static CLONE_NAME: Cell<u64> = Cell::new(0);
+}
+
+impl Clone for Inner {
+    fn clone(&self) -> Self {
+        Inner { name: CLONE_NAME.with(|c| c.get()), shared: self.shared.clone() }
+    }
+}
+
+impl Inner {
+    fn touch(&self) {
+        self.shared.push([0, TID.with(|t| t.get()), 10, self.name, 0, 0]);
+    }
+    fn touch_mut(&mut self) {
+        self.shared.push([0, TID.with(|t| t.get()), 10, self.name, 0, 0]);
+    }
+}
+
 impl Future for Inner {
     type Output = ();
     fn poll(self: Pin<&mut Self>, _: &mut Context<'_>) -> Poll<()> {
@@ -162,39 +182,217 @@ impl Drop for Inner {
     }
 }
 
+/// Every statically typed shape of an instrumented future the op language can build.
 trait Fut: Send {
     fn span(&self) -> &Span;
+    fn span_mut(&mut self) -> &mut Span;
     fn poll_once(&mut self) -> Poll<()>;
     fn into_inner_drop(self: Box<Self>);
+    /// inner() / inner_mut() / inner_pin_ref() / inner_pin_mut()  (k = 0..3), down to the innermost future
+    fn touch(&mut self, k: u64);
+    fn clone_box(&self) -> Box<dyn Fut>;
+    /// `.with_collector(d)` / `.with_current_collector()` around a plain Instrumented
+    fn wrap(self: Box<Self>, d: Option<Dispatch>) -> Box<dyn Fut>;
 }
 
-impl Fut for tracing::instrument::Instrumented<Inner> {
+fn poll_unpin<F: Future<Output = ()> + Unpin>(f: &mut F) -> Poll<()> {
+    let w: &Waker = Waker::noop();
+    let mut cx = Context::from_waker(w);
+    Pin::new(f).poll(&mut cx)
+}
+
+type TI<T> = tracing::instrument::Instrumented<T>;
+type TW<T> = tracing::instrument::WithDispatch<T>;
+type FI<T> = tracing_futures::Instrumented<T>;
+type FW<T> = tracing_futures::WithDispatch<T>;
+
+impl Fut for TI<Inner> {
     fn span(&self) -> &Span {
-        tracing::instrument::Instrumented::span(self)
+        TI::span(self)
+    }
+    fn span_mut(&mut self) -> &mut Span {
+        TI::span_mut(self)
     }
     fn poll_once(&mut self) -> Poll<()> {
-        let w: &Waker = Waker::noop();
-        let mut cx = Context::from_waker(w);
-        Pin::new(self).poll(&mut cx)
+        poll_unpin(self)
     }
     fn into_inner_drop(self: Box<Self>) {
         let inner = (*self).into_inner();
         drop(inner);
     }
+    fn touch(&mut self, k: u64) {
+        match k {
+            0 => self.inner().touch(),
+            1 => self.inner_mut().touch_mut(),
+            2 => Pin::new(&*self).inner_pin_ref().get_ref().touch(),
+            _ => Pin::new(self).inner_pin_mut().get_mut().touch_mut(),
+        }
+    }
+    fn clone_box(&self) -> Box<dyn Fut> {
+        Box::new(self.clone())
+    }
+    fn wrap(self: Box<Self>, d: Option<Dispatch>) -> Box<dyn Fut> {
+        use tracing::instrument::WithCollector;
+        match d {
+            Some(d) => Box::new((*self).with_collector(d)),
+            None => Box::new((*self).with_current_collector()),
+        }
+    }
 }
 
-impl Fut for tracing_futures::Instrumented<Inner> {
+impl Fut for FI<Inner> {
     fn span(&self) -> &Span {
-        tracing_futures::Instrumented::span(self)
+        FI::span(self)
+    }
+    fn span_mut(&mut self) -> &mut Span {
+        FI::span_mut(self)
     }
     fn poll_once(&mut self) -> Poll<()> {
-        let w: &Waker = Waker::noop();
-        let mut cx = Context::from_waker(w);
-        Pin::new(self).poll(&mut cx)
+        poll_unpin(self)
     }
     fn into_inner_drop(self: Box<Self>) {
         let inner = (*self).into_inner();
         drop(inner);
+    }
+    fn touch(&mut self, k: u64) {
+        match k {
+            0 => self.inner().touch(),
+            1 => self.inner_mut().touch_mut(),
+            2 => Pin::new(&*self).inner_pin_ref().get_ref().touch(),
+            _ => Pin::new(self).inner_pin_mut().get_mut().touch_mut(),
+        }
+    }
+    fn clone_box(&self) -> Box<dyn Fut> {
+        Box::new(self.clone())
+    }
+    fn wrap(self: Box<Self>, d: Option<Dispatch>) -> Box<dyn Fut> {
+        use tracing_futures::WithCollector;
+        match d {
+            Some(d) => Box::new((*self).with_collector(d)),
+            None => Box::new((*self).with_current_collector()),
+        }
+    }
+}
+
+/// Instrumented<WithDispatch<Inner>>
+impl Fut for TI<TW<Inner>> {
+    fn span(&self) -> &Span {
+        TI::span(self)
+    }
+    fn span_mut(&mut self) -> &mut Span {
+        TI::span_mut(self)
+    }
+    fn poll_once(&mut self) -> Poll<()> {
+        poll_unpin(self)
+    }
+    fn into_inner_drop(self: Box<Self>) {
+        let wd = (*self).into_inner();
+        drop(wd.into_inner());
+    }
+    fn touch(&mut self, k: u64) {
+        match k {
+            0 => self.inner().inner().touch(),
+            1 => self.inner_mut().inner_mut().touch_mut(),
+            2 => Pin::new(&*self).inner_pin_ref().inner_pin_ref().get_ref().touch(),
+            _ => Pin::new(self).inner_pin_mut().inner_pin_mut().get_mut().touch_mut(),
+        }
+    }
+    fn clone_box(&self) -> Box<dyn Fut> {
+        Box::new(self.clone())
+    }
+    fn wrap(self: Box<Self>, _: Option<Dispatch>) -> Box<dyn Fut> {
+        panic!("validated: only a plain Instrumented is wrapped")
+    }
+}
+
+impl Fut for FI<FW<Inner>> {
+    fn span(&self) -> &Span {
+        FI::span(self)
+    }
+    fn span_mut(&mut self) -> &mut Span {
+        FI::span_mut(self)
+    }
+    fn poll_once(&mut self) -> Poll<()> {
+        poll_unpin(self)
+    }
+    fn into_inner_drop(self: Box<Self>) {
+        let wd = (*self).into_inner();
+        drop(wd.into_inner());
+    }
+    fn touch(&mut self, k: u64) {
+        match k {
+            0 => self.inner().inner().touch(),
+            1 => self.inner_mut().inner_mut().touch_mut(),
+            2 => Pin::new(&*self).inner_pin_ref().inner_pin_ref().get_ref().touch(),
+            _ => Pin::new(self).inner_pin_mut().inner_pin_mut().get_mut().touch_mut(),
+        }
+    }
+    fn clone_box(&self) -> Box<dyn Fut> {
+        Box::new(self.clone())
+    }
+    fn wrap(self: Box<Self>, _: Option<Dispatch>) -> Box<dyn Fut> {
+        panic!("validated: only a plain Instrumented is wrapped")
+    }
+}
+
+/// WithDispatch<Instrumented<Inner>>
+impl Fut for TW<TI<Inner>> {
+    fn span(&self) -> &Span {
+        self.inner().span()
+    }
+    fn span_mut(&mut self) -> &mut Span {
+        self.inner_mut().span_mut()
+    }
+    fn poll_once(&mut self) -> Poll<()> {
+        poll_unpin(self)
+    }
+    fn into_inner_drop(self: Box<Self>) {
+        let instrumented = (*self).into_inner();
+        drop(instrumented.into_inner());
+    }
+    fn touch(&mut self, k: u64) {
+        match k {
+            0 => self.inner().inner().touch(),
+            1 => self.inner_mut().inner_mut().touch_mut(),
+            2 => Pin::new(&*self).inner_pin_ref().inner_pin_ref().get_ref().touch(),
+            _ => Pin::new(self).inner_pin_mut().inner_pin_mut().get_mut().touch_mut(),
+        }
+    }
+    fn clone_box(&self) -> Box<dyn Fut> {
+        Box::new(self.clone())
+    }
+    fn wrap(self: Box<Self>, _: Option<Dispatch>) -> Box<dyn Fut> {
+        panic!("validated: only a plain Instrumented is wrapped")
+    }
+}
+
+impl Fut for FW<FI<Inner>> {
+    fn span(&self) -> &Span {
+        self.inner().span()
+    }
+    fn span_mut(&mut self) -> &mut Span {
+        self.inner_mut().span_mut()
+    }
+    fn poll_once(&mut self) -> Poll<()> {
+        poll_unpin(self)
+    }
+    fn into_inner_drop(self: Box<Self>) {
+        let instrumented = (*self).into_inner();
+        drop(instrumented.into_inner());
+    }
+    fn touch(&mut self, k: u64) {
+        match k {
+            0 => self.inner().inner().touch(),
+            1 => self.inner_mut().inner_mut().touch_mut(),
+            2 => Pin::new(&*self).inner_pin_ref().inner_pin_ref().get_ref().touch(),
+            _ => Pin::new(self).inner_pin_mut().inner_pin_mut().get_mut().touch_mut(),
+        }
+    }
+    fn clone_box(&self) -> Box<dyn Fut> {
+        Box::new(self.clone())
+    }
+    fn wrap(self: Box<Self>, _: Option<Dispatch>) -> Box<dyn Fut> {
+        panic!("validated: only a plain Instrumented is wrapped")
     }
 }
 
@@ -299,6 +497,9 @@ fn mk_root() -> Span {
 fn mk_child(p: &Span) -> Span {
     tracing::span!(parent: p, Level::INFO, "child", f = tracing::field::Empty)
 }
+fn mk_child_id(p: &Span) -> Span {
+    tracing::span!(parent: p.id(), Level::INFO, "child", f = tracing::field::Empty)
+}
 
 fn idp(s: &Span) -> u64 {
     s.id().map(|i| i.into_u64() + 1).unwrap_or(0)
@@ -321,19 +522,22 @@ fn run_loop(ctx: &std::rc::Rc<WorkerCtx>) -> Exit {
             0 => {
                 // New n how en pkind r
                 ENABLED.with(|x| x.set(c != 0));
-                let parent: Option<&Span> = if d == 2 { Some(unsafe { &*case.span_ptr(e) }) } else { None };
+                let parent: Option<&Span> = if d == 2 || d == 3 { Some(unsafe { &*case.span_ptr(e) }) } else { None };
                 let m = METAS.get().unwrap();
                 let span = if b == 0 {
                     match d {
-                        0 => mk_root(),
+                        0 | 4 => mk_root(), // span!(parent: None, ..)
                         1 => mk_ctx(),
-                        _ => mk_child(parent.unwrap()),
+                        2 => mk_child(parent.unwrap()),
+                        _ => mk_child_id(parent.unwrap()),
                     }
                 } else {
                     match d {
                         0 => Span::new_root(m.root, &m.root.fields().value_set(&[])),
                         1 => Span::new(m.ctx, &m.ctx.fields().value_set(&[])),
-                        _ => Span::child_of(parent.unwrap(), m.child, &m.child.fields().value_set(&[])),
+                        2 => Span::child_of(parent.unwrap(), m.child, &m.child.fields().value_set(&[])),
+                        3 => Span::child_of(parent.unwrap().id(), m.child, &m.child.fields().value_set(&[])),
+                        _ => Span::child_of(None, m.root, &m.root.fields().value_set(&[])),
                     }
                 };
                 ENABLED.with(|x| x.set(true));
@@ -441,23 +645,57 @@ fn run_loop(ctx: &std::rc::Rc<WorkerCtx>) -> Exit {
             }
             10 => return Exit::Scope(a != 0),
             11 => {
-                let sp: &Span = unsafe { &*case.span_ptr(a) };
-                sp.record("f", 1u64);
+                // a chain r.record(..).record(..)...: b = length (0 = one call on the existing field), bit i of c = the
+                // i-th call names a field the span has
+                let mut sp: &Span = unsafe { &*case.span_ptr(a) };
+                let (len, mask) = if b == 0 { (1, 1) } else { (b, c) };
+                for i in 0..len {
+                    sp = if (mask >> i) & 1 == 1 { sp.record("f", i) } else { sp.record("no_such_field", i) };
+                }
                 ctx.ack(Ack::Done(0, 0, 0));
             }
             12 => {
                 let sp: &Span = unsafe { &*case.span_ptr(a) };
-                let from: &Span = unsafe { &*case.span_ptr(b) };
-                sp.follows_from(from);
+                match c {
+                    0 => {
+                        let from: &Span = unsafe { &*case.span_ptr(b) };
+                        sp.follows_from(from);
+                    }
+                    1 => {
+                        let from: &Span = unsafe { &*case.span_ptr(b) };
+                        let id: Option<Id> = from.id();
+                        sp.follows_from(id);
+                    }
+                    _ => {
+                        sp.follows_from(None::<Id>);
+                    }
+                }
                 ctx.ack(Ack::Done(0, 0, 0));
             }
             13 => {
+                // c: 0 = plain, 1 = the inner future .with_current_collector(), 2 + k = .with_collector(k)
                 let s = case.take_span(a);
                 let inner = Inner { name: a, shared: case.shared.clone() };
-                let f: Box<dyn Fut> = if b == 0 {
-                    Box::new(tracing::Instrument::instrument(inner, s))
-                } else {
-                    Box::new(tracing_futures::Instrument::instrument(inner, s))
+                let disp = |k: u64| if k == 0 { Dispatch::none() } else { case.dispatches[(k - 1) as usize].clone() };
+                let f: Box<dyn Fut> = match (b, c) {
+                    (0, 0) => Box::new(tracing::Instrument::instrument(inner, s)),
+                    (_, 0) => Box::new(tracing_futures::Instrument::instrument(inner, s)),
+                    (0, 1) => {
+                        use tracing::instrument::WithCollector;
+                        Box::new(tracing::Instrument::instrument(inner.with_current_collector(), s))
+                    }
+                    (_, 1) => {
+                        use tracing_futures::WithCollector;
+                        Box::new(tracing_futures::Instrument::instrument(inner.with_current_collector(), s))
+                    }
+                    (0, k) => {
+                        use tracing::instrument::WithCollector;
+                        Box::new(tracing::Instrument::instrument(inner.with_collector(disp(k - 2)), s))
+                    }
+                    (_, k) => {
+                        use tracing_futures::WithCollector;
+                        Box::new(tracing_futures::Instrument::instrument(inner.with_collector(disp(k - 2)), s))
+                    }
                 };
                 case.tables.lock().unwrap().holders.insert(a, Holder::Fut(f));
                 ctx.ack(Ack::Done(0, 0, 0));
@@ -498,6 +736,76 @@ fn run_loop(ctx: &std::rc::Rc<WorkerCtx>) -> Exit {
             18 => {
                 let g = ctx.defaults.borrow_mut().pop();
                 drop(g);
+                ctx.ack(Ack::Done(0, 0, 0));
+            }
+            19 => {
+                // pure accessors
+                let sp: &Span = unsafe { &*case.span_ptr(a) };
+                let r = match b {
+                    0 => sp.is_none() as u64,
+                    1 => sp.is_disabled() as u64,
+                    2 => idp(sp),
+                    _ => sp.metadata().is_some() as u64,
+                };
+                ctx.ack(Ack::Done(r, 0, 0));
+            }
+            20 => {
+                let mut t = case.tables.lock().unwrap();
+                match t.holders.get_mut(&a) {
+                    Some(Holder::Fut(f)) => f.touch(b),
+                    _ => panic!("validated: future"),
+                }
+                drop(t);
+                ctx.ack(Ack::Done(0, 0, 0));
+            }
+            21 => {
+                // mem::swap(f.span_mut(), &mut n)
+                let mut bx = match case.take(b) {
+                    Holder::Handle(bx) => bx,
+                    _ => panic!("validated: plain handle"),
+                };
+                let pre = {
+                    let mut t = case.tables.lock().unwrap();
+                    match t.holders.get_mut(&a) {
+                        Some(Holder::Fut(f)) => {
+                            std::mem::swap(f.span_mut(), &mut *bx);
+                            idp(f.span())
+                        }
+                        _ => panic!("validated: future"),
+                    }
+                };
+                let r = idp(&bx);
+                case.tables.lock().unwrap().holders.insert(b, Holder::Handle(bx));
+                ctx.ack(Ack::Done(r, 0, pre));
+            }
+            22 => {
+                CLONE_NAME.with(|x| x.set(b));
+                let g = {
+                    let t = case.tables.lock().unwrap();
+                    match t.holders.get(&a) {
+                        Some(Holder::Fut(f)) => f.clone_box(),
+                        _ => panic!("validated: future"),
+                    }
+                };
+                let r = idp(g.span());
+                case.tables.lock().unwrap().holders.insert(b, Holder::Fut(g));
+                ctx.ack(Ack::Done(r, 0, 0));
+            }
+            23 => {
+                // b: 0 = with_current_collector(), 1 + k = with_collector(k)
+                let f = match case.take(a) {
+                    Holder::Fut(f) => f,
+                    _ => panic!("validated: future"),
+                };
+                let d = if b == 0 {
+                    None
+                } else if b == 1 {
+                    Some(Dispatch::none())
+                } else {
+                    Some(case.dispatches[(b - 2) as usize].clone())
+                };
+                let g = f.wrap(d);
+                case.tables.lock().unwrap().holders.insert(a, Holder::Fut(g));
                 ctx.ack(Ack::Done(0, 0, 0));
             }
             _ => ctx.ack(Ack::Fatal(format!("unknown op code {}", code))),
@@ -566,8 +874,8 @@ struct Ent {
 }
 #[derive(Default)]
 struct OwnSt {
-    kinds: HashMap<u64, bool>, // name -> is future
-    ents: Vec<Ent>,            // oldest first
+    kinds: HashMap<u64, u8>, // name -> 0 handle, 1 Instrumented, 2 WithDispatch<Instrumented>, 3 Instrumented<WithDispatch>
+    ents: Vec<Ent>,          // oldest first
 }
 
 impl OwnSt {
@@ -584,10 +892,16 @@ impl OwnSt {
         self.live(n) && self.on(n).is_empty()
     }
     fn is_handle(&self, n: u64) -> bool {
-        self.kinds.get(&n) == Some(&false)
+        self.kinds.get(&n) == Some(&0)
     }
     fn is_fut(&self, n: u64) -> bool {
-        self.kinds.get(&n) == Some(&true)
+        self.kinds.get(&n) == Some(&1)
+    }
+    fn is_anyfut(&self, n: u64) -> bool {
+        matches!(self.kinds.get(&n), Some(&k) if k >= 1)
+    }
+    fn in_wd_poll(&self, t: u64) -> bool {
+        self.ents.iter().any(|e| e.t == t && e.k == EK::Poll && matches!(self.kinds.get(&e.h), Some(&k) if k >= 2))
     }
     fn top_frame(&self, t: u64) -> Option<usize> {
         self.ents.iter().rposition(|e| e.t == t && (e.k == EK::Scope || e.k == EK::Poll))
@@ -597,25 +911,25 @@ impl OwnSt {
     }
     /// Validate and apply.  false = rustc would reject the program here.
     fn apply(&mut self, op: &[u64]) -> bool {
-        let (t, code, a, b, d, e) = (op[0], op[1], op[2], op[3], op[5], op[6]);
+        let (t, code, a, b, c, d, e) = (op[0], op[1], op[2], op[3], op[4], op[5], op[6]);
         match code {
             0 => {
-                if self.live(a) || (d == 2 && !self.readable(e)) {
+                if self.live(a) || ((d == 2 || d == 3) && !self.readable(e)) || d > 4 {
                     return false;
                 }
-                self.kinds.insert(a, false);
+                self.kinds.insert(a, 0);
             }
             1 => {
                 if !self.readable(a) || self.live(b) {
                     return false;
                 }
-                self.kinds.insert(b, false);
+                self.kinds.insert(b, 0);
             }
             2 => {
                 if self.live(a) {
                     return false;
                 }
-                self.kinds.insert(a, false);
+                self.kinds.insert(a, 0);
             }
             3 => {
                 if !(self.is_handle(a) && self.free(a)) {
@@ -683,7 +997,7 @@ impl OwnSt {
                 }
             }
             12 => {
-                if !(self.readable(a) && self.readable(b)) {
+                if !(self.readable(a) && (c >= 2 || self.readable(b))) {
                     return false;
                 }
             }
@@ -691,10 +1005,10 @@ impl OwnSt {
                 if !(self.is_handle(a) && self.free(a)) {
                     return false;
                 }
-                self.kinds.insert(a, true);
+                self.kinds.insert(a, if c == 0 { 1 } else { 3 });
             }
             14 => {
-                if !(self.is_fut(a) && self.free(a)) {
+                if !(self.is_anyfut(a) && self.free(a)) {
                     return false;
                 }
                 self.ents.push(Ent { k: EK::Poll, h: a, t });
@@ -706,12 +1020,44 @@ impl OwnSt {
                 _ => return false,
             },
             16 => {
-                if !(self.is_fut(a) && self.free(a)) {
+                if !(self.is_anyfut(a) && self.free(a)) {
                     return false;
                 }
                 self.kinds.remove(&a);
             }
-            17 | 18 => {}
+            17 | 18 => {
+                if self.in_wd_poll(t) {
+                    return false;
+                }
+            }
+            19 => {
+                if !self.readable(a) {
+                    return false;
+                }
+            }
+            20 => {
+                if !(self.is_anyfut(a) && if b % 2 == 0 { self.readable(a) } else { self.free(a) }) {
+                    return false;
+                }
+            }
+            21 => {
+                if !(self.is_anyfut(a) && self.free(a) && self.is_handle(b) && self.free(b)) {
+                    return false;
+                }
+            }
+            22 => {
+                if !(self.is_anyfut(a) && self.readable(a) && !self.live(b)) {
+                    return false;
+                }
+                let k = self.kinds[&a];
+                self.kinds.insert(b, k);
+            }
+            23 => {
+                if !(self.is_fut(a) && self.free(a)) {
+                    return false;
+                }
+                self.kinds.insert(a, 2);
+            }
             _ => return false,
         }
         true
@@ -761,7 +1107,7 @@ fn run_case(v: &serde_json::Value) -> serde_json::Value {
             rejected_at = i as i64;
             break;
         }
-        if op[1] == 17 && op[2] > ncoll {
+        if (op[1] == 17 && op[2] > ncoll) || (op[1] == 23 && op[3] > ncoll + 1) || (op[1] == 13 && op[4] > ncoll + 2) {
             rejected_at = i as i64;
             break;
         }
